@@ -27,15 +27,18 @@ TECHNIQUE = ("TLA+ model checking (TLC): declarative definitions vs transcribed 
              "collections + replay of every generated collection into package benchstat")
 DESIGN_REF = "DESIGN.md section 4 C17"
 
-RULE = ("(M) exhaustive TLC run of Legacy.tla over the plan families of the tier: 'cell' = every sequence of up to 6 (7) values over 4 "
-        "(5) values in one cell; 'pair' = every pair of multisets of sizes 1..4 (1..5) over 3 (4) values x {U, t, none} x alpha grid x "
-        "{ns/op, MB/s}; 'small' = every collection of 3 (up to 4) lines over 2 names x (2 units | 2 label values) x 2 values in 4 (11) "
-        "configuration shapes x orders x tests x grouping; invariant AllOK (cell lemmas, bookkeeping, row rendering, stable sort, "
-        "geomean membership) on every state, the rendering decision table and the sort lemma (all key vectors up to length 5) as "
-        "assumptions. (G) the same exploration prints one replay case per collection of each family; -simulate adds finished "
-        "collections of 1-3 configurations x up to 8 lines x 1-2 measurements (3 names, 3 units, label groups, value sets with an "
-        "outlier / shifted second configuration / constant first configuration / zeros) under all 300 settings, lemmas checked on "
-        "each; 'wide' simulated collections fill tables of up to 15 rows (5 names x 3 label values). Every case is replayed once on "
+RULE = ("(M) exhaustive TLC run of Legacy.tla over the plan families of the tier. quick: 'cell' = every sequence of up to 6 values over "
+        "{0,1,3,8} in one cell; 'pair' = every pair of multisets of sizes 1..4 over {0,1,3} x (U-test x 3 alphas, t-test x 2 alphas, no "
+        "test) x {ns/op, MB/s}; 'small' = every collection of 3 lines over 2 names x (2 units | 2 label values) x 2 values in 4 "
+        "configuration shapes x 5 (test, order) settings, with and without grouping. thorough: cells up to 7 values, and up to 6 over "
+        "{0,1,4,10,40}; pairs of sizes 1..5 over {0,1,3} and 1..4 over {0,1,2,5}; 3-line collections in 5 shapes (incl. an empty first "
+        "configuration) x all orders, 4-line collections in 4 shapes x 2 settings. Invariant AllOK (cell lemmas, bookkeeping, row "
+        "rendering, stable sort, geomean membership) on every state; the rendering decision table (total, disjoint, = if-chain) and the "
+        "sort lemma (all key vectors up to length 5 over 4 keys, both directions) as assumptions. (G) the same exploration prints one "
+        "replay case per collection of each family; -simulate (1500 / 12000 behaviours, seeded) adds finished collections of 1-3 "
+        "configurations x up to 8 lines x 1-2 measurements (3 names, 3 units, label groups, value sets with an outlier / shifted second "
+        "configuration / constant first configuration / zeros) under all 300 settings, and 'wide' collections of 45-100 lines filling "
+        "tables of up to 15 rows (5 names x 3 label values), lemmas checked on each. Every case is replayed once on "
         "benchstat.Collection. distinct_nontrivial = distinct judged cases in which an outlier is rejected, or an old/new row "
         "reaches the gate without a test error, or a sort changes the first-appearance order, or a zero mean is left out of a "
         "requested geomean.")
@@ -59,42 +62,20 @@ def nontrivial(c):
     return False
 
 
-def run(ctx):
-    ctx.build()
-    q = ctx.quick
-    tier = "quick" if q else "thorough"
-    # small models; deep recursive definitions over ~100 measurements need a larger thread stack
-    jenv = {"JAVA_TOOL_OPTIONS": "-Xmx4g -Xss64m"}
-    # (M) lemmas on every collection of the exhaustive families
-    ctx.tlc("Legacy.tla", "Legacy_mc_%s.cfg" % tier, timeout=3000, env=jenv)
-    # (G) the same families as replay cases
-    g = ctx.tlc("Legacy_gen.tla", "Legacy_gen_%s.cfg" % tier, timeout=3000, label="gen", env=jenv)
-    cases = g.printed_json("case")
-    fams = collections.Counter(c["fam"] for c in cases)
-    if len(cases) < 10000 or not all(any(f.startswith(p) for f in fams) for p in ("cell", "pair", "small")):
-        raise vlib.Infra("generator produced %d cases: %s" % (len(cases), dict(fams)))
-    # (G) simulated large collections, lemmas checked on each (one worker: reproducible for a seed)
-    nsim = 1500 if q else 12000
-    s = ctx.tlc("Legacy_gen.tla", "Legacy_gen_sim.cfg", workers=1, simulate=nsim, depth=130, timeout=3000,
-                label="simulate+gen", env=jenv)
-    sims = s.printed_json("case")
-    if len(sims) < nsim * 0.9 or not any(c["fam"] == "wide" for c in sims):
-        raise vlib.Infra("simulation produced %d collections for %d behaviours" % (len(sims), nsim))
-    cases += sims
-    for c in cases:
-        c.pop("tag", None)
-    cases = vlib.dedupe(cases, key=lambda c: json.dumps([c["cfgs"], c["set"]], sort_keys=True))
-    # deterministic order and ids (TLC prints in worker order); the harness derives every
-    # concretisation from the id
-    cases.sort(key=lambda c: json.dumps([c["fam"], c["cfgs"], c["set"]], sort_keys=True))
-    for i, c in enumerate(cases):
-        c["id"] = i
-    fams = collections.Counter(c["fam"] for c in cases)
-    skips = collections.Counter(c["skip"] for c in cases if c["skip"])
-    judged = [c for c in cases if not c["skip"]]
-    nontriv = sum(1 for c in judged if nontrivial(c))
-    # what the cases exercise
-    stat = collections.Counter()
+class Acc:
+    """Counters over the replayed cases (the cases themselves are processed in chunks)."""
+    def __init__(self):
+        self.next_id = 0
+        self.fams = collections.Counter()
+        self.skips = collections.Counter()
+        self.stat = collections.Counter()
+        self.bad = collections.Counter()
+        self.nontriv = 0
+        self.seen = set()
+
+
+def account(acc, judged):
+    stat = acc.stat
     for c in judged:
         for t in c["exp"]["tables"]:
             for r in t["rows"]:
@@ -115,10 +96,15 @@ def run(ctx):
                         stat["ttest_p_from_library"] += 1
             if c["set"]["order"] != "none" and len(t["rows"]) > 1:
                 stat["sorted_tables"] += 1
+                if len(t["rows"]) > 12:
+                    stat["sorted_tables_over_12_rows"] += 1
                 if not t["ordknown"]:
                     stat["sorted_tables_gate_from_library"] += 1
                 if t["ordhaz"]:
                     stat["sorted_tables_order_not_judged"] += 1
+
+
+def samples(ctx, judged):
     smp = [c for c in judged if c["fam"] == "cell" and any(len(x["rv"]) < len(x["vals"]) for t in c["exp"]["tables"]
                                                              for r in t["rows"] for x in r["cells"] if x["has"])]
     ctx.add_samples(smp[len(smp) // 2:], 1)
@@ -128,11 +114,72 @@ def run(ctx):
     smp = [c for c in judged if c["fam"] == "sim" and len(c["cfgs"]) == 2 and c["set"]["order"] == "rdelta"
            and len(c["exp"]["tables"]) >= 2]
     ctx.add_samples(smp[len(smp) // 2:], 1)
-    verdicts = ctx.replay("legacy", cases, "replay of TLC-generated collections on the legacy benchstat library", timeout=3000)
-    bad = collections.Counter(v.get("signature", "") for v in verdicts if not v.get("ok"))
-    if bad:
-        ctx.cov["deviation_signatures"] = dict(bad)
-        vlib.log("deviations by signature: %s" % dict(bad))
+
+
+def chunk(ctx, acc, cases, what):
+    """Dedupe, number, account and replay one batch of generated cases."""
+    out = []
+    for c in cases:
+        c.pop("tag", None)
+        k = json.dumps([c["cfgs"], c["set"]], sort_keys=True)
+        if k in acc.seen:
+            continue
+        acc.seen.add(k)
+        out.append((k, c))
+    # deterministic order and ids (TLC prints in worker order); the harness derives every
+    # concretisation from the id
+    out.sort(key=lambda kc: (kc[1]["fam"], kc[0]))
+    cases = [c for _, c in out]
+    for c in cases:
+        c["id"] = acc.next_id
+        acc.next_id += 1
+        acc.fams[c["fam"]] += 1
+        if c["skip"]:
+            acc.skips[c["skip"]] += 1
+    judged = [c for c in cases if not c["skip"]]
+    acc.nontriv += sum(1 for c in judged if nontrivial(c))
+    account(acc, judged)
+    samples(ctx, judged)
+    verdicts = ctx.replay("legacy", cases, what, timeout=3000)
+    acc.bad.update(v.get("signature", "") for v in verdicts if not v.get("ok"))
+
+
+def run(ctx):
+    ctx.build()
+    q = ctx.quick
+    tier = "quick" if q else "thorough"
+    # small models; deep recursive definitions over ~100 measurements need a larger thread stack
+    jenv = {"JAVA_TOOL_OPTIONS": "-Xmx%s -Xss64m" % ("4g" if q else "8g")}
+    acc = Acc()
+    # (M) lemmas on every collection of the exhaustive families
+    ctx.tlc("Legacy.tla", "Legacy_mc_%s.cfg" % tier, timeout=3000, env=jenv)
+    # (G) the same families as replay cases (thorough: one run per family, to bound memory)
+    gens = ["Legacy_gen_quick.cfg"] if q else ["Legacy_gen_thorough_%s.cfg" % f for f in ("cell", "pair", "small")]
+    want = {"cell", "pair", "small"}
+    for cfg in gens:
+        g = ctx.tlc("Legacy_gen.tla", cfg, timeout=3000, label="gen", env=jenv)
+        cases = g.printed_json("case")
+        del g
+        if len(cases) < 10000:
+            raise vlib.Infra("generator %s produced %d cases" % (cfg, len(cases)))
+        got = {c["fam"] for c in cases}
+        want -= {p for p in want if any(f.startswith(p) for f in got)}
+        chunk(ctx, acc, cases, "replay of TLC-generated collections (%s) on the legacy benchstat library" % cfg)
+        del cases
+    if want:
+        raise vlib.Infra("generator produced no cases of the families %s" % sorted(want))
+    # (G) simulated large collections, lemmas checked on each (one worker: reproducible for a seed)
+    nsim = 1500 if q else 12000
+    s = ctx.tlc("Legacy_gen.tla", "Legacy_gen_sim.cfg", workers=1, simulate=nsim, depth=130, timeout=3000,
+                label="simulate+gen", env=jenv)
+    sims = s.printed_json("case")
+    if len(sims) < nsim * 0.9 or not any(c["fam"] == "wide" for c in sims):
+        raise vlib.Infra("simulation produced %d collections for %d behaviours" % (len(sims), nsim))
+    chunk(ctx, acc, sims, "replay of TLC-simulated collections on the legacy benchstat library")
+    fams, skips, stat, nontriv = acc.fams, acc.skips, acc.stat, acc.nontriv
+    if acc.bad:
+        ctx.cov["deviation_signatures"] = dict(acc.bad)
+        vlib.log("deviations by signature: %s" % dict(acc.bad))
     ctx.cov["distinct_nontrivial"] = nontriv
     ctx.cov["cases_by_family"] = dict(fams)
     ctx.cov["marked_not_judged"] = dict(skips)
